@@ -7,6 +7,7 @@ func init() {
 		ID:    "C01",
 		Title: "Expressions follow the precedence table, left associativity and typed arithmetic",
 		Rules: []string{
+			"R-ERRLAYER: no fault message of the evaluator (a fail constant referenced from package evaluator) is raised by the parser",
 			"R-LITERAL: literal text is converted with ParseInt(text, 10, 64) / ParseFloat(text, 64); the number reader takes only digits and dots (its loop is evaluated for every other byte)",
 			"R-EVALERR: the result of every recursive Eval is returned or tested with isError before use, and on the error side the error is what is returned (itself, wrapped, or as the single element of a result list)",
 			"R-PRATT: the operator model extracted from parser.go (precedences, registrations, binding powers per parse method, loop comparison) groups every operator sequence of <= 3 operators exactly as the specification grammar of C01",
@@ -18,6 +19,7 @@ func init() {
 		NotDecided:  "TODO",
 		Assumptions: trustedBase,
 		Run: func(m *Model, s *Sink) {
+			m.RunErrLayer(s, "R-ERRLAYER") // evaluation faults are raised by evaluation, not while parsing
 			m.RunLiteral(s, "R-LITERAL")
 			m.RunEvalErr(s, "R-EVALERR") // a failing sub-expression fails the render: its error is returned, not replaced or left among the results
 			m.RunPratt(s, "R-PRATT")
